@@ -171,6 +171,27 @@ fn preflight_failure<const NF: bool>() {
 // ---- the default OPTIONS handler the router registers per route ---------------------------------------
 fn eq(a: &[u8], b: &[u8]) -> bool { a.len() == b.len() && { let mut i = 0; let mut r = true; while i < a.len() { if a[i] != b[i] { r = false; } i += 1; } r } }
 
+// @verif prop=C14 tier=off mem=12 timeout=900 replay=none bounds="(short variant: exactly 3 symbolic upper-case letters, header present) default OPTIONS handler of a route with {GET, POST}: Access-Control-Request-Method = 3..=7 symbolic upper-case bytes, or absent"
+#[kani::proof]
+#[kani::stub(ohkami::util::unix_timestamp, stubs::unix_timestamp_zero)]
+#[kani::stub(core::str::from_utf8, stubs::from_utf8_model)]
+#[kani::unwind(50)]
+fn c14_default_options_three_letters() {
+    let h = v::handler::default_options_handler(vec!["GET", "POST"]);
+    let mut req = request(Method::OPTIONS);
+    let m: [u8; 3] = kani::any();
+    let mut i = 0;
+    while i < 3 { kani::assume(m[i] >= b'A' && m[i] <= b'Z'); i += 1; }
+    let m: &'static [u8; 3] = Box::leak(Box::new(m));
+    v::request_add_header(&mut req, b"Access-Control-Request-Method", &m[..]);
+    let res = block_on(v::handler::call(&h, &mut req), 2).expect("handler completed");
+    let registered = eq(&m[..], b"GET");
+    assert!(res.status.code() == if registered { 501 } else { 400 }, "C14: default OPTIONS handler admits / refuses the wrong method (a fragment of a registered method's name is not a method)");
+    kani::cover!(registered, "GET requested");
+    kani::cover!(m[0] == b'P' && m[1] == b'O' && m[2] == b'S', "a fragment of POST requested");
+    std::mem::forget(res); std::mem::forget(req);
+}
+
 // @verif prop=C14 tier=quick mem=12 timeout=1500 replay=none bounds="default OPTIONS handler of a route with {GET, POST}: Access-Control-Request-Method = 3..=7 symbolic upper-case bytes, or absent"
 #[kani::proof]
 #[kani::stub(ohkami::util::unix_timestamp, stubs::unix_timestamp_zero)]
